@@ -2611,6 +2611,55 @@ pub fn run(cx: &mut Ctx) {
     }
 }
 
+/// ORACLE-ONLY: pipelines with a collector attached, run by `Runner { checkpoint_config: Some(enabled), .. }` in both
+/// modes; after every successful run: result == the run without collector and without checkpointing, `elapsed()` is
+/// `Some`, and `execution_time_ms` is a member of `to_json()`.
+fn ckpt_runs(cx: &mut Ctx) {
+    use ironbeam::checkpoint::{CheckpointConfig, CheckpointPolicy};
+    let dir = match tempfile::Builder::new().prefix("ibh-c16-ck-").tempdir() { Ok(d) => d, Err(_) => { cx.count("mckpt:no-tempdir(skipped)"); return; } };
+    let kv = |k: i64, v: i64| (k, v);
+    let rows: Vec<(i64, i64)> = (0..24).map(|i| kv(i % 4, i)).collect();
+    let mut k = 0usize;
+    for par in [None, Some(1usize), Some(3)] {
+        for shape in 0..3 {
+            for pol in [CheckpointPolicy::AfterEveryBarrier, CheckpointPolicy::EveryNNodes(1), CheckpointPolicy::Hybrid { barriers: true, interval_secs: 0 }] {
+                k += 1;
+                let build = |p: &Pipeline| {
+                    let c = from_vec(p, rows.clone());
+                    match shape {
+                        0 => c.map(|r: &(i64, i64)| (r.0, r.1 + 1)),
+                        1 => c.group_by_key().map(|r: &(i64, Vec<i64>)| (r.0, r.1.iter().sum::<i64>())),
+                        _ => c.combine_values(ironbeam::combiners::Sum::<i64>::new()).filter(|r: &(i64, i64)| r.0 != 2),
+                    }
+                };
+                let mode = match par { None => ExecMode::Sequential, Some(n) => ExecMode::Parallel { threads: None, partitions: Some(n) } };
+                let plain = { let p = Pipeline::default(); let c = build(&p); guarded(move || c.collect_seq()) };
+                let coll = MetricsCollector::new();
+                let p = Pipeline::default();
+                p.set_metrics(coll.clone());
+                let c = build(&p);
+                let cfg = CheckpointConfig { enabled: true, directory: dir.path().join(format!("r{k}")), policy: pol.clone(), auto_recover: k % 2 == 0, max_checkpoints: Some(2) };
+                let p2 = p.clone();
+                let got = guarded(move || Runner { mode, checkpoint_config: Some(cfg), ..Default::default() }.run_collect::<(i64, i64)>(&p2, c.node_id()));
+                let i = cx.case(format!("ORACLE-ONLY metrics-with-checkpointing shape={shape} mode={} policy#{}", par.map_or("seq".into(), |n| format!("par:{n}")), k % 3), "-".into(), true);
+                tick(cx);
+                cx.count("mckpt:runs");
+                let canon = |r: &Result<anyhow::Result<Vec<(i64, i64)>>, String>| match r { Ok(Ok(v)) => { let mut v = v.clone(); v.sort(); Some(v) } _ => None };
+                match (canon(&plain), canon(&got)) {
+                    (Some(a), Some(b)) if a == b => {
+                        let has_key = coll.to_json().get("execution_time_ms").is_some();
+                        if coll.elapsed().is_none() || !has_key {
+                            cx.oracle_fail(i, "elapsed-missing-after-success", format!("checkpointed run succeeded; elapsed()={:?}, execution_time_ms in to_json: {has_key}", coll.elapsed()));
+                        }
+                    }
+                    (Some(_), _) => cx.oracle_fail(i, "collector-changed-result", format!("plain={plain:?} checkpointed-with-collector={got:?}")),
+                    _ => cx.count("mckpt:plain-run-failed(skipped)"),
+                }
+            }
+        }
+    }
+}
+
 fn run_inner(cx: &mut Ctx) {
     if !smoke(cx) {
         return;
@@ -2634,6 +2683,10 @@ fn run_inner(cx: &mut Ctx) {
             poison_case(cx, how, &g, mode);
         }
     }
+    // a collector attached to a pipeline that is run through a CHECKPOINTING runner: `run_collect` has a separate dispatch
+    // for `checkpoint_config: Some(enabled)`; the stamps and the result must be what the plain run gives
+    // (round-4 seeded change C16-6: that branch returned early, past `record_metrics_end`)
+    ckpt_runs(cx);
     // the u64 boundary of `count + value`
     for (init, add) in [
         (Some(Ok(u64::MAX)), 1u64), (Some(Ok(u64::MAX)), 2), (Some(Ok(u64::MAX - 1)), 1), (Some(Ok(u64::MAX - 1)), 2),
